@@ -90,7 +90,10 @@ pub(super) fn collect_used_type_params(ty: &Type, used: &mut HashSet<String>) {
 
 /// Extract and process zlink attributes from a list of attributes.
 /// Returns the processed value and removes the attributes from the list.
-pub(super) fn extract_zlink_attrs<T, F>(attrs: &mut Vec<Attribute>, processor: F) -> Option<T>
+pub(super) fn extract_zlink_attrs<T, F>(
+    attrs: &mut Vec<Attribute>,
+    processor: F,
+) -> Result<Option<T>, Error>
 where
     F: FnOnce(Punctuated<Meta, syn::Token![,]>) -> Result<T, Error>,
 {
@@ -123,7 +126,7 @@ where
 
     // Process the found meta items if any
     let result = if let Some(meta_items) = meta_items_to_process {
-        processor(meta_items).ok()
+        Some(processor(meta_items)?)
     } else {
         None
     };
@@ -133,7 +136,7 @@ where
         attrs.remove(index);
     }
 
-    result
+    Ok(result)
 }
 
 /// Parse a rename value from an expression.
@@ -178,8 +181,8 @@ pub(super) fn extract_param_rename_attr(
         }
 
         Ok(rename_value)
-    });
-    Ok(rename_result.unwrap_or(None))
+    })?;
+    Ok(rename_result.flatten())
 }
 
 /// Parse the arguments of a proxy method (skipping `&mut self`).
@@ -207,9 +210,10 @@ pub(super) fn parse_method_arguments<'a>(
             let ty = &pat_type.ty;
 
             // Extract parameter rename attribute
-            let serialized_name = extract_param_rename_attr(&mut pat_type.attrs.clone())
-                .ok()
-                .flatten();
+            let serialized_name = match extract_param_rename_attr(&mut pat_type.attrs.clone()) {
+                Ok(name) => name,
+                Err(e) => return Some(Err(e)),
+            };
 
             // Check if the type is optional
             let is_optional = is_option_type(ty);
